@@ -13,7 +13,7 @@ PID = "C12"
 
 
 def run(tier, replay=None):
-    rep = C.Report(PID)
+    rep = C.Report(PID, level="exploration")
     w = C.scratch("c12-")
     try:
         c11.model(rep, w, tier)
